@@ -784,3 +784,12 @@ PROPERTIES["C17"]["manifest"]["technique"] += "; symbolic execution (mirsym) of 
 PROPERTIES["C17"]["manifest"]["text"] += " Failure isolation kernel: tearing down one connection in the socket core removes exactly that connection's endpoint entry, pipe sender, reader task and read-id mapping, closes exactly that connection, aborts only its tasks and reports exactly its pipe to the socket pattern; a listener's or an unknown URI changes nothing."
 PROPERTIES["C17"]["manifest"]["note"] = "NOT claimed: that every kind of failure (protocol violation, failed authentication, reset) reaches this teardown and nothing else, reconnection actually happening, traffic resumption (socket-core event loop, tokio)."
 PROPERTIES["C17"]["outside"] = "which failures lead to the teardown, reconnect scheduling in the socket core (async event loop)"
+PROPERTIES["C20"]["mirsym"].append(
+    M("c20_uring_ingress_delivery", "d_c20", "uring_ingress_delivery",
+      {"quick": "io_uring backend (MIR dump built with --features io-uring): ZmtpUringHandler::{apply_engine_output, try_drain_spillover, attach_ingress, should_throttle_reads} over the real AnonymousIngressEngine / ReadyPipeQueue (capacity 1 or 2); all histories of 5 steps from {the engine decodes a message, the socket attaches its receive queue, the application reads one message, the worker drains the stash}, then everything is drained",
+       "thorough": "histories of 6 steps"},
+      params={"quick": {"ops": 5}, "thorough": {"ops": 6}}, budget={"quick": 600, "thorough": 1800},
+      required_covers=["c20.ingress.stashed", "c20.ingress.all-delivered"], features="uring"))
+PROPERTIES["C20"]["manifest"]["text"] += " Second kernel, receive side: every message the io_uring handler's engine decodes reaches the socket's receive queue exactly once and in order - also when the queue is full or not attached yet (the handler stashes instead of dropping) - and the handler asks the worker to stop reading from the peer for as long as anything is stashed; this is the delivery behaviour of the default backend's awaited hand-over."
+PROPERTIES["C20"]["manifest"]["note"] = PROPERTIES["C20"]["manifest"]["note"].replace("NOT claimed: everything else in the property - delivered messages and order, handshake outcomes,", "NOT claimed: the bytes-to-engine path (ring buffers, multishot reads), handshake outcomes,")
+PROPERTIES["C20"]["outside"] = "ring buffers and reads, handshake outcomes, buffer accounting, fds, heartbeat clock on the io_uring backend"
